@@ -164,6 +164,10 @@ func (g G) planMix(prop string, o *mixOpts) *Plan {
 					m.BodyOff = g.intn(lab+".bfo", 3000)
 				}
 			}
+			if fp > 0 && g.chance(lab+".fa", fp) {
+				m.FaultAt = g.rng(lab+".fan", 1, 4)
+				m.FaultKind = g.pick(lab+".fak", "err", "err", "nil_record", "key_without_cert", "cert_without_key", "empty_cert", "partial_err")
+			}
 			if g.chance(lab+".wf", o.writeFaultPct) {
 				m.WriterFault, m.WriterOff = true, g.intn(lab+".wfo", 2000)
 			}
